@@ -212,6 +212,8 @@ class Generator(Curve, Point):
                     recid += 2
                 return r, s, recid
             k += 1
+            if k >= n:  # type: ignore[operator]
+                k = 1  # stay inside [1, n-1]: n*G is the point at infinity
 
     def sign(
         self,
